@@ -41,6 +41,34 @@ EDGE_FIELDS = {
 }
 
 
+def is_dynamic_writes(F, R, tag="C01-d"):
+    """every write to Dependency::is_dynamic keeps `static wins`, and only code imports take part"""
+    writes = [n for n in F.all_nodes() if not n["_top"].get("derived") and n["k"] in ("Assign", "AssignOp") and peel(n["l"]).get("k") == "Field" and peel(n["l"])["field"] == "is_dynamic" and peel(n["l"]).get("adt") == "graph::Dependency"]
+    R.floor(tag + " writes to Dependency::is_dynamic", len(writes), 2)
+    for w in writes:
+        r = peel(w["r"])
+        tgt = expr_text(peel(w["l"])["e"])
+        kind = None
+        if r.get("k") == "Lit" and r.get("v") is False:
+            kind = "false"
+        elif r.get("k") == "Field" and r["field"] == "is_dynamic" and r.get("adt") != "graph::Dependency":
+            # first code import: must be under `dep.maybe_code.is_none()`
+            g = guards_at(F, w)
+            if any(x.kind == "cond" and x.pol and x.node.get("k") == "MethodCall" and x.node["name"] == "is_none" and "maybe_code" in expr_text(x.node["recv"]) for x in g):
+                kind = "first-import"
+        elif r.get("k") == "Binary" and r["op"] == "&&":
+            l_, r_ = peel(r["l"]), peel(r["r"])
+            if any(x.get("k") == "Field" and x["field"] == "is_dynamic" and x.get("adt") == "graph::Dependency" and expr_text(x["e"]) == tgt for x in (l_, r_)):
+                kind = "conjunction"
+        if kind in ("first-import", "conjunction") and any(x.get("k") == "Field" and x["field"] == "is_dynamic" and x.get("adt") != "graph::Dependency" for x in walk(w["r"])):
+            g = guards_at(F, w)
+            code_only = any(x.kind == "pat" and not x.pol and "ImportKind::TsType" in pat_text(x.pat) for x in g)
+            R.ob(tag, "only code imports decide static-versus-dynamic", code_only,
+                 "`%s` also runs for type-only imports (not under the failure of `matches!(import.kind, TsType | TsModuleAugmentation)`): a type reference would turn a dynamic code edge static in a full build, but not in a code-only build of the same sources" % expr_text(w)[:60], where(w))
+        R.ob(tag, "write `%s` keeps static-wins" % expr_text(w)[:70], kind is not None,
+             "Dependency::is_dynamic is assigned `%s`, which is neither the first-import initialisation, `current && import.is_dynamic`, nor false: a specifier imported statically and dynamically could end up dynamic" % expr_text(w["r"]), where(w))
+
+
 def run(F, R, tier):
     lw = F.body("graph::Builder::load_with_redirect_count")
     # ---------------- C01-a ------------------------------------------------
@@ -240,25 +268,7 @@ def run(F, R, tier):
              "media_type = JavaScript under %s: non-root files of unknown type would become modules (pulling their imports into the graph) instead of UnsupportedMediaType errors" % [x.text()[:50] for x in g if x.kind == "cond"], where(a_))
 
     # ---------------- C01-d ------------------------------------------------
-    writes = [n for n in F.all_nodes() if not n["_top"].get("derived") and n["k"] in ("Assign", "AssignOp") and peel(n["l"]).get("k") == "Field" and peel(n["l"])["field"] == "is_dynamic" and peel(n["l"]).get("adt") == "graph::Dependency"]
-    R.floor("C01-d writes to Dependency::is_dynamic", len(writes), 2)
-    for w in writes:
-        r = peel(w["r"])
-        tgt = expr_text(peel(w["l"])["e"])
-        kind = None
-        if r.get("k") == "Lit" and r.get("v") is False:
-            kind = "false"
-        elif r.get("k") == "Field" and r["field"] == "is_dynamic" and r.get("adt") != "graph::Dependency":
-            # first code import: must be under `dep.maybe_code.is_none()`
-            g = guards_at(F, w)
-            if any(x.kind == "cond" and x.pol and x.node.get("k") == "MethodCall" and x.node["name"] == "is_none" and "maybe_code" in expr_text(x.node["recv"]) for x in g):
-                kind = "first-import"
-        elif r.get("k") == "Binary" and r["op"] == "&&":
-            l_, r_ = peel(r["l"]), peel(r["r"])
-            if any(x.get("k") == "Field" and x["field"] == "is_dynamic" and x.get("adt") == "graph::Dependency" and expr_text(x["e"]) == tgt for x in (l_, r_)):
-                kind = "conjunction"
-        R.ob("C01-d", "write `%s` keeps static-wins" % expr_text(w)[:70], kind is not None,
-             "Dependency::is_dynamic is assigned `%s`, which is neither the first-import initialisation, `current && import.is_dynamic`, nor false: a specifier imported statically and dynamically could end up dynamic" % expr_text(w["r"]), where(w))
+    is_dynamic_writes(F, R)
     aw = [n for n in F.all_nodes() if not n["_top"].get("derived") and n["k"] in ("Assign", "AssignOp") and peel(n["l"]).get("k") == "Field" and peel(n["l"])["field"] == "is_asset" and peel(n["l"]).get("adt") == "graph::PendingDynamicBranch"]
     R.floor("C01-d writes to PendingDynamicBranch::is_asset", len(aw), 1)
     for w in aw:
